@@ -629,6 +629,12 @@ class DataFileManager:
 
             column = table.column(field_name)
 
+            # min/max ignore NaN, so bounds computed over a column that holds
+            # NaN do not describe every row: "x != 1.0" or "x in [NaN]" would
+            # skip a file whose NaN rows match. No bounds -> no pruning.
+            if pa.types.is_floating(column.type) and pc.any(pc.is_nan(column)).as_py():
+                continue
+
             try:
                 # Compute min/max using PyArrow compute
                 min_scalar = pc.min(column)
